@@ -788,6 +788,11 @@ func (c *fnCtx) callResultFacts(call *ssa.Call, idx int, res Lin) []Ineq {
 		// with a non-empty separator the result has at least one element: expressed on len(result)
 		// by the caller through seqLenFacts (see lenFacts)
 
+	case "bytes.IndexAny", "strings.IndexAny", "bytes.LastIndexAny", "strings.LastIndexAny", "strings.IndexRune", "bytes.IndexRune":
+		out = append(out, Ineq{res.Add(Const(1)), "index>=-1"})
+		out = append(out, Ineq{c.seqLen(call.Call.Args[0]).Sub(res).Sub(Const(1)), "index<=len-1"})
+	case "github.com/q191201771/naza/pkg/bele.BeUint24":
+		out = append(out, Ineq{Const(1<<24 - 1).Sub(res), "24-bit value"})
 	case "bytes.Index", "bytes.IndexByte", "strings.Index", "strings.IndexByte", "bytes.LastIndex", "strings.LastIndex", "bytes.LastIndexByte", "strings.LastIndexByte":
 		// -1 <= r <= len(s)-len(sep)  (sep length >= 0; IndexByte: r <= len(s)-1)
 		out = append(out, Ineq{res.Add(Const(1)), "index>=-1"})
@@ -924,10 +929,8 @@ func fwdLoad(v ssa.Value) ssa.Value {
 	if !ok {
 		return nil
 	}
-	cell, ok := fa.X.(*ssa.Alloc)
-	if !ok {
-		return nil
-	}
+	cell := fa.X
+	_, isLocal := cell.(*ssa.Alloc)
 	b := ld.Block()
 	pos := -1
 	for i, in := range b.Instrs {
@@ -937,7 +940,12 @@ func fwdLoad(v ssa.Value) ssa.Value {
 	}
 	sameField := func(a ssa.Value) bool {
 		x, ok := a.(*ssa.FieldAddr)
-		return ok && x.X == ssa.Value(cell) && x.Field == fa.Field
+		return ok && x.X == cell && x.Field == fa.Field
+	}
+	// a store to the same field of the same struct type through another pointer may alias
+	mayAlias := func(a ssa.Value) bool {
+		x, ok := a.(*ssa.FieldAddr)
+		return ok && x.Field == fa.Field && x.X != cell && types.Identical(x.X.Type(), cell.Type())
 	}
 	for i := pos - 1; i >= 0; i-- {
 		switch in := b.Instrs[i].(type) {
@@ -945,15 +953,21 @@ func fwdLoad(v ssa.Value) ssa.Value {
 			if sameField(in.Addr) {
 				return in.Val
 			}
-			if in.Addr == ssa.Value(cell) {
-				return nil // whole-cell store
+			if in.Addr == cell || (!isLocal && mayAlias(in.Addr)) {
+				return nil // whole-cell store / possible alias
 			}
 		case ssa.CallInstruction:
+			if !isLocal {
+				// the struct is reachable from elsewhere: any call that is not a builtin may write it
+				if _, isB := in.Common().Value.(*ssa.Builtin); !isB {
+					return nil
+				}
+			}
 			for _, op := range in.Operands(nil) {
 				if op == nil || *op == nil {
 					continue
 				}
-				if *op == ssa.Value(cell) || sameField(*op) {
+				if *op == cell || sameField(*op) {
 					return nil
 				}
 			}
